@@ -27,15 +27,16 @@ RULE = (
     'was still undelivered). Distinct = sha1 of the JSON case.'
 )
 ASSUMPTIONS = [
-    'channel model: reliable FIFO per direction; message-level interleaving '
-    '(each handler runs atomically) in this property',
+    'channel model: reliable FIFO per direction; handlers run atomically '
+    'except for up to 3 line-level pre-emptions of a worker main step (the '
+    'incoming-message handler runs whole messages at a drawn source line)',
     'hygiene is read at quiescence through plain attribute reads of the real '
     'objects (_tasks, _mailboxes, _delayed_tasks, ready queue; server '
     'mailboxes/clients)',
 ]
 SHARDS = {'quick': 16, 'thorough': 16}
 BUDGET_S = {'quick': 200, 'thorough': 2400}
-KINDS = ('seq', 'map', 'mapnext', 'mapcancel', 'subcancel')
+KINDS = ('seq', 'map', 'mapnext', 'mapcancel', 'subcancel', 'forget')
 
 
 def _nodes(spec):
@@ -61,7 +62,7 @@ def check(case) -> Outcome:
             if under:
                 n['wait'] = False
             n['kid'] = fix_wait(n['kid'], True, False)
-        elif n['t'] == 'mapcancel':
+        elif n['t'] in ('mapcancel', 'forget'):
             n['kids'] = [fix_wait(k, True, False) for k in n['kids']]
         elif 'kids' in n:
             n['kids'] = [fix_wait(k, under, False) for k in n['kids']]
@@ -79,6 +80,8 @@ def check(case) -> Outcome:
     P.reset()
     sim = Sim(case['topo'], case['sched'], policy=case.get('policy'),
               nclients=2 if mode == 'disconnect' else 1)
+    sim.inject = sc.resolve_injections(case.get('inject', []),
+                                       sorted(sim.workers))
     try:
         comp = sim.compiler(0)
         task = make_root_task(spec)
@@ -165,6 +168,32 @@ def check(case) -> Outcome:
                              f'{tag} on W{wid} at {when}, CANCEL {addr} '
                              f'handled at {t}')
                     break
+        # a CANCEL is sent per slot of the cancelled future; once a worker has
+        # handled every CANCEL that was sent for a future it must not start
+        # any body belonging to that future (this also exposes a cancel that
+        # forgets some of the slots)
+        sent_for: dict = {}
+        for sender, recv, mname, payload in sim.msg_log:
+            if mname == 'CANCEL' and sender.startswith('W') and \
+                    payload is not None:
+                a = tuple(payload)
+                sent_for.setdefault(a[:2], set()).add(a)
+        for tag, wid, when, lineage in P.EXEC_LOG:
+            if str(tag).startswith('cancelled:'):
+                continue
+            for a in lineage:
+                key = tuple(a[:2])
+                if key not in sent_for:
+                    continue
+                handled = [t for (t, wname, addr) in sim.cancel_handled
+                           if wname == f'W{wid}' and tuple(addr[:2]) == key]
+                if len(handled) >= len(sent_for[key]) and \
+                        when > max(handled):
+                    out.fail('body_started_after_all_cancels_handled',
+                             f'{tag} on W{wid} at {when}; the {len(handled)} '
+                             f'CANCELs sent for future {key} were handled by '
+                             f'{max(handled)}')
+                    break
         # ---- (3) hygiene at quiescence
         left = sc.worker_leftovers(sim)
         for name, table, n in left:
@@ -183,13 +212,16 @@ def check(case) -> Outcome:
             pending_when_cancelled = True
         ncancel = sum(1 for t in sim.trace if len(t) > 3 and t[3] == 'CANCEL')
         out.nontrivial = ncancel >= 1 and pending_when_cancelled and (
-            P.has_kind(spec, ('mapcancel', 'subcancel')) or mode != 'none'
+            P.has_kind(spec, ('mapcancel', 'subcancel', 'forget'))
+            or mode != 'none'
         )
         out.label(f'client:{mode}')
         if any(k == 'mapcancel' for _, k, _ in P.leaves(spec)):
             out.label('has:mapcancel')
         if any(k == 'subcancel' for _, k, _ in P.leaves(spec)):
             out.label('has:subcancel')
+        if any(k == 'forget' for _, k, _ in P.leaves(spec)):
+            out.label('has:forget')
         # SUBMIT overtaken by its own CANCEL: a cancelled body that never ran
         if any(c and counts.get(tag, 0) == 0 for tag, k, c in P.leaves(spec)):
             out.label('cancelled-before-start')
@@ -215,6 +247,7 @@ def cases(draw, quick=True):
         'policy': draw(st.sampled_from([None, None, 'lazy_recv',
                                         'eager_recv'])),
         'client': {'mode': mode},
+        'inject': draw(sc.injections),
     }
     if mode != 'none':
         case['client']['at'] = draw(st.integers(0, 60))
